@@ -47,8 +47,9 @@ CLAIMED = {
               "on-disk reopen restores cells and count",
               "expanding/rotating format: export (loop over the sub-filters, stream model), __bytes__, _parse_footer, "
               "_parse_blooms, __load on a mapped file, frombytes of both classes and the bytes round-trip lemma are discharged; "
-              "counting Bloom, cuckoo formats and the hex/path channels: bounded history stand-in; one known finding "
-              "(fingerprint 0)", tech=_TB),
+              "counting Bloom format (uint32 cells): export, __bytes__, _parse_bloom_array, _load, frombytes and the bytes "
+              "round-trip lemma are discharged; cuckoo formats and the hex/path channels: bounded history stand-in; one known "
+              "finding (fingerprint 0)", tech=_TB),
     "C06": _c("the export contracts ARE the documented layout (cells, then footer fields at fixed offsets, little endian, bit i in "
               "byte i div 8); the default hash is proved to be the published FNV-1a recurrence seeded per index; positions are "
               "hash mod size by the add contracts",
